@@ -434,6 +434,131 @@ fn replay_round(v: Value) -> CaseResult {
     run_round(&r)
 }
 
+
+// --- the concatenated (Android tzdata) back-end: histories of lookups, resets, file replacement ---
+
+#[derive(Serialize, Deserialize, Debug, Clone)]
+enum COp {
+    Get(u8, u8),
+    Reset,
+    Replace(u8),
+    /// true = long TTL, false = expires immediately
+    SetTtl(bool),
+    Available,
+}
+
+#[derive(Serialize, Deserialize, Debug, Clone)]
+struct CHistory {
+    ops: Vec<COp>,
+}
+
+fn strat_chistory() -> BoxedStrategy<CHistory> {
+    let name = 0u8..6;
+    let op = prop_oneof![
+        8 => (name.clone(), 0u8..4).prop_map(|(n, v)| COp::Get(n, v)),
+        1 => Just(COp::Reset),
+        2 => name.prop_map(COp::Replace),
+        2 => any::<bool>().prop_map(COp::SetTtl),
+        1 => Just(COp::Available),
+    ];
+    proptest::collection::vec(op, 1..25).prop_map(|ops| CHistory { ops }).boxed()
+}
+
+fn zone_bytes(i: usize, ver: u32) -> Vec<u8> {
+    tzfiles::fixed_tzif(&format!("N{}V{}", i + 1, ver), (i as i32 + 1) * 1000 + ver as i32)
+}
+
+fn write_tzdata(dir: &std::path::Path, versions: &[u32; 6], serial: u64) {
+    let zones: Vec<(String, Vec<u8>)> = (0..6).map(|i| (NAMES[i].to_string(), zone_bytes(i, versions[i]))).collect();
+    let data = tzfiles::concatenated("2024a", &zones);
+    let tmp = dir.join(format!("tzdata.tmp{serial}"));
+    std::fs::write(&tmp, &data).unwrap();
+    let f = std::fs::OpenOptions::new().write(true).open(&tmp).unwrap();
+    f.set_modified(SystemTime::UNIX_EPOCH + Duration::from_secs(1_600_000_000 + 10 * serial)).unwrap();
+    drop(f);
+    std::fs::rename(&tmp, dir.join("tzdata")).unwrap();
+}
+
+fn test_chistory(h: &CHistory, cx: &mut Cx) -> CaseResult {
+    let n = DIR_COUNTER.fetch_add(1, Ordering::Relaxed);
+    let base = PathBuf::from(format!("{}/.work/c19/{}-{}-concat", VERIF_DIR, std::process::id(), n));
+    let _ = std::fs::remove_dir_all(&base);
+    std::fs::create_dir_all(&base).unwrap();
+    struct Cleanup(PathBuf);
+    impl Drop for Cleanup {
+        fn drop(&mut self) {
+            let _ = std::fs::remove_dir_all(&self.0);
+        }
+    }
+    let _cleanup = Cleanup(base.clone());
+    let mut versions = [1u32; 6];
+    let mut serial = 1u64;
+    write_tzdata(&base, &versions, serial);
+    let db = TimeZoneDatabase::from_concatenated_path(base.join("tzdata")).map_err(|e| Failure::new("from-concatenated-err", e.to_string()))?;
+    let long = Duration::from_secs(3600);
+    db.__verif_set_ttl(long, long);
+    let mut ttl_long = true;
+    // oldest version a cached entry may still hold (None = nothing cached)
+    let mut floor: [Option<u32>; 6] = [None; 6];
+    let mut seen_replace_then_get = false;
+    // the TTL hook re-arms the expiry of the (emptied) name index, which a real database can
+    // never do: a TTL change right after a reset is not applied
+    let mut reset_pending = false;
+    for (step, op) in h.ops.iter().enumerate() {
+        match op {
+            COp::Get(i, v) => {
+                // (this back-end answers lookups from the file without consulting the name index,
+                // so only available() refreshes the index after a reset)
+                let i = *i as usize;
+                let q = variant(NAMES[i], *v);
+                let ctx = format!("step {step}: get({q:?})");
+                let tz = db.get(&q).map_err(|e| Failure::new("concat-lookup-fails", format!("{ctx}: {e}")))?;
+                let (id, ver) = decode(&tz);
+                ensure!(id == i as i32 + 1, "concat-other-zones-data", "{ctx}: returned the data of zone #{id}");
+                ensure!(tz.iana_name() == Some(NAMES[i]), "concat-not-canonical", "{ctx}: the zone calls itself {:?}, canonical spelling is {:?} (history: {:?})", tz.iana_name(), NAMES[i], &h.ops[..step]);
+                let lo = if ttl_long { floor[i].unwrap_or(versions[i]) } else { versions[i] };
+                ensure!((lo..=versions[i]).contains(&ver), "concat-stale-or-future-version", "{ctx}: returned version {ver}, allowed {lo}..={} (ttl_long={ttl_long})", versions[i]);
+                let fresh = TimeZone::tzif(NAMES[i], &zone_bytes(i, ver)).map_err(|e| Failure::new("harness-tzif", e.to_string()))?;
+                ensure!(tz == fresh, "concat-differs-from-bytes", "{ctx}: the zone is not equal to the same bytes loaded directly");
+                if ver != versions[i] {
+                    cx.class("concat: served from cache inside the TTL");
+                } else if floor[i].is_some() && versions[i] > floor[i].unwrap() {
+                    seen_replace_then_get = true;
+                }
+                floor[i] = Some(ver);
+                cx.class_if(*v != 0, "concat: lookup in a non-canonical spelling");
+            }
+            COp::Reset => {
+                db.reset();
+                floor = [None; 6];
+                reset_pending = true;
+            }
+            COp::Replace(i) => {
+                versions[*i as usize] += 1;
+                serial += 1;
+                write_tzdata(&base, &versions, serial);
+            }
+            COp::SetTtl(l) => {
+                if !reset_pending {
+                    db.__verif_set_ttl(if *l { long } else { Duration::ZERO }, if *l { long } else { Duration::ZERO });
+                    ttl_long = *l;
+                }
+            }
+            COp::Available => {
+                reset_pending = false;
+                let mut got: Vec<String> = db.available().map(|n| n.as_str().to_string()).collect();
+                got.sort();
+                let mut want: Vec<String> = NAMES.iter().map(|s| s.to_string()).collect();
+                want.sort();
+                ensure!(got == want, "concat-available-differs", "step {step}: available() = {got:?} want {want:?}");
+            }
+        }
+    }
+    cx.nt_if(h.ops.iter().any(|o| matches!(o, COp::Replace(_) | COp::Reset | COp::SetTtl(_))));
+    cx.class_if(seen_replace_then_get, "concat: re-read after replacement");
+    Ok(())
+}
+
 pub fn property() -> Property {
     let _ = Path::new("/");
     Property {
@@ -447,6 +572,7 @@ pub fn property() -> Property {
         ],
         checks: vec![
             Box::new(Prop { name: "c19.history", quick: 30_000, thorough: 1_500_000, strategy: strat_history, test: test_history }),
+            Box::new(Prop { name: "c19.concat_history", quick: 20_000, thorough: 1_000_000, strategy: strat_chistory, test: test_chistory }),
             Box::new(Sweep { name: "c19.concurrent", run: run_concurrent, replay: replay_round }),
         ],
         floors: |rec| {
